@@ -141,6 +141,57 @@ def run_role(ctx, form, xlen, nroles, rlen, alpha='full'):
                 detail={'form': form, 'got': got})
 
 
+def run_repeat(ctx, form, edit):
+    """The same parsed check / enforcer is asked twice with the same
+    credentials object whose role list is edited in place in between."""
+    from oslo_policy import _parser
+    from oslo_policy import policy
+    common.set_ctx(ctx)
+    alpha = ALPHABETS['small']
+    x = ctx.str('x', alpha, 2, 1)
+    r0 = ctx.str('r0', alpha, 2, 1)
+    r1 = ctx.str('r1', alpha, 2, 1)
+    roles = [r0]
+    creds = {'roles': roles}
+    target = {'k': x}
+    match = x if form == 'literal' else '%(k)s'
+    if form == 'enforce':
+        enf = common.mk_enforcer(rules=policy.Rules.from_dict(
+            {'p': 'role:' + x}))
+        ask = lambda: bool(enf.enforce('p', target, creds))  # noqa: E731
+    else:
+        check = _parser._parse_check('role:' + match)
+        ask = lambda: bool(check(target, creds, None))  # noqa: E731
+    first = ask()
+    ctx.require(mkbool(_caseeq(x, r0) == first), 'repeat:first',
+                detail={'form': form})
+    if edit == 'append':
+        roles.append(r1)
+        want = z3.Or(_caseeq(x, r0), _caseeq(x, r1))
+    elif edit == 'replace-item':
+        roles[0] = r1
+        want = _caseeq(x, r1)
+    elif edit == 'clear':
+        del roles[:]
+        want = z3.BoolVal(False)
+    else:
+        creds['roles'] = [r1]
+        want = _caseeq(x, r1)
+    second = ask()
+    ctx.cover('repeat:' + edit)
+    ctx.observe('x', x)
+    ctx.observe('roles', [r for r in creds['roles']])
+    ctx.observe('decisions', [first, second])
+    ctx.require(mkbool(want == second), 'repeat:second-decision-stale',
+                detail={'form': form, 'edit': edit, 'second': second})
+
+
+def cubes_repeat(tier, seed):
+    return [{'form': f, 'edit': e}
+            for f in ('literal', 'placeholder', 'enforce')
+            for e in ('append', 'replace-item', 'clear', 'new-list')]
+
+
 def cubes_role(tier, seed):
     out = []
     if tier == 'quick':
@@ -166,12 +217,17 @@ def cubes_role(tier, seed):
 
 HARNESSES = {'role': {'fn': run_role, 'cubes': cubes_role,
                       'concretize_limit': 40000,
-                      'budget_s': {'quick': 600, 'thorough': 3000}}}
+                      'budget_s': {'quick': 600, 'thorough': 3000}},
+             'repeat': {'fn': run_repeat, 'cubes': cubes_repeat,
+                        'concretize_limit': 40000}}
 REQUIRED_COVER = ['form:' + f for f in FORMS] + [
-    'allowed', 'denied', 'missing-key', 'no-roles-entry']
+    'allowed', 'denied', 'missing-key', 'no-roles-entry', 'repeat:append',
+    'repeat:clear']
 
 
 def cube_weight(hname, p):
+    if hname == 'repeat':
+        return 10 ** 10
     if p.get('alpha') == 'small':
         return 10 ** 9 + p['xlen'] + p['nroles']     # first: cheap, decisive
     return (14 ** min(p['xlen'], 3)) * (p['nroles'] + 1) ** 2 * p['rlen']
